@@ -7,7 +7,7 @@ import (
 	"github.com/gkampitakis/go-snaps/match"
 )
 
-func symString(label string, n int) string {
+func vxSymString(label string, n int) string {
 	s := vxrt.Text(label, vxrt.Len(label+"-len", 0, n))
 	for i := 0; i < len(s); i++ {
 		vxrt.Assume(vxrt.And(vxrt.And(s[i] >= 0x20, s[i] < 0x7f), vxrt.And(s[i] != '"', s[i] != '\\')))
@@ -28,11 +28,11 @@ func H_C16_mask() {
 	// masked values: strings; for Any and Custom also null / number / bool (Type[string] needs strings)
 	maskedVal := func(label string) string {
 		if matcherKind == 1 {
-			return symString(label, n)
+			return vxSymString(label, n)
 		}
 		switch vxrt.Choice(label+"-kind", 4) {
 		case 0:
-			return symString(label, n)
+			return vxSymString(label, n)
 		case 1:
 			return "null"
 		case 2:
@@ -42,12 +42,12 @@ func H_C16_mask() {
 		}
 	}
 	m1, m2 := maskedVal("masked-1"), maskedVal("masked-2")
-	a1 := symString("unmasked-1", n)
+	a1 := vxSymString("unmasked-1", n)
 	a2 := a1
 	sameOffMask := vxrt.Bool("same-off-mask")
 	if !sameOffMask {
-		a2 = symString("unmasked-2", n)
-		vxrt.Assume(differs(a1, a2))
+		a2 = vxSymString("unmasked-2", n)
+		vxrt.Assume(vxDiffers(a1, a2))
 	}
 	doc1 := `{"a":` + a1 + `,"m":` + m1 + `}`
 	doc2 := `{"a":` + a2 + `,"m":` + m2 + `}`
@@ -63,38 +63,38 @@ func H_C16_mask() {
 		}
 	}
 	standalone := vxrt.Bool("standalone")
-	call := func(t *mockT, doc string) {
+	call := func(t *vxMockT, doc string) {
 		if standalone {
 			c.MatchStandaloneJSON(t, doc, mk())
 		} else {
 			c.MatchJSON(t, doc, mk())
 		}
 	}
-	t1 := newT("TestM")
+	t1 := vxNewT("TestM")
 	call(t1, doc1)
 	t1.end()
 	vxrt.Assert(len(t1.errors) == 0 && len(t1.logs) == 1, "C16:record")
-	stored := dumpDir(dir)
-	t2 := newT("TestM")
+	stored := vxDumpDir(dir)
+	t2 := vxNewT("TestM")
 	call(t2, doc2)
 	t2.end()
 	if sameOffMask {
 		vxrt.Reach("same")
 		vxrt.Assert(len(t2.errors) == 0 && len(t2.logs) == 0, "C16:masked-difference-passes")
-		vxrt.Assert(vxrt.Eq(dumpDir(dir), stored), "C16:masked-difference-stores-identically")
+		vxrt.Assert(vxrt.Eq(vxDumpDir(dir), stored), "C16:masked-difference-stores-identically")
 	} else {
 		vxrt.Reach("different")
 		vxrt.Assert(len(t2.errors) == 1, "C16:unmasked-difference-fails")
-		vxrt.Assert(vxrt.Eq(dumpDir(dir), stored), "C16:failing-call-writes-nothing")
+		vxrt.Assert(vxrt.Eq(vxDumpDir(dir), stored), "C16:failing-call-writes-nothing")
 	}
 }
 
 // maskLine is a matcher (JSON and YAML interface) that replaces the second
 // line of a two-line document by a fixed placeholder: the matcher interface is
 // the environment boundary, so masking is "some function of the bytes".
-type maskLine struct{}
+type vxMaskLine struct{}
 
-func (maskLine) apply(b []byte) []byte {
+func (vxMaskLine) apply(b []byte) []byte {
 	s := string(b)
 	for i := 0; i < len(s); i++ {
 		if s[i] == '\n' {
@@ -103,8 +103,8 @@ func (maskLine) apply(b []byte) []byte {
 	}
 	return b
 }
-func (m maskLine) JSON(b []byte) ([]byte, []match.MatcherError) { return m.apply(b), nil }
-func (m maskLine) YAML(b []byte) ([]byte, []match.MatcherError) { return m.apply(b), nil }
+func (m vxMaskLine) JSON(b []byte) ([]byte, []match.MatcherError) { return m.apply(b), nil }
+func (m vxMaskLine) YAML(b []byte) ([]byte, []match.MatcherError) { return m.apply(b), nil }
 
 // H_C16_update: masking also holds across an update: create (a1,m1), update
 // with a changed unmasked value (a2,m2), then a normal run with (a2,m3) passes
@@ -122,23 +122,23 @@ func H_C16_update() {
 		return c
 	}
 	a1, a2 := val("unmasked-1"), val("unmasked-2")
-	vxrt.Assume(differs(a1, a2))
+	vxrt.Assume(vxDiffers(a1, a2))
 	m1, m2, m3 := val("masked-1"), val("masked-2"), val("masked-3")
 	doc := func(a, m string) string { return "a: " + a + "\nm: " + m }
-	call := func(c *Config, t *mockT, d string) { c.MatchYAML(t, d, maskLine{}) }
-	t1 := newT("TestM")
+	call := func(c *Config, t *vxMockT, d string) { c.MatchYAML(t, d, vxMaskLine{}) }
+	t1 := vxNewT("TestM")
 	call(plain, t1, doc(a1, m1))
 	t1.end()
 	vxrt.Assert(len(t1.errors) == 0 && len(t1.logs) == 1, "C16:record")
-	t2 := newT("TestM")
+	t2 := vxNewT("TestM")
 	call(upd, t2, doc(a2, m2))
 	t2.end()
 	vxrt.Assert(len(t2.errors) == 0 && len(t2.logs) == 1, "C16:update")
-	t3 := newT("TestM")
+	t3 := vxNewT("TestM")
 	call(plain, t3, doc(a2, m3))
 	t3.end()
 	vxrt.Assert(len(t3.errors) == 0 && len(t3.logs) == 0, "C16:masked-difference-passes-after-update")
-	t4 := newT("TestM")
+	t4 := vxNewT("TestM")
 	call(plain, t4, doc(a1, m3))
 	t4.end()
 	vxrt.Assert(len(t4.errors) == 1, "C16:unmasked-difference-fails-after-update")
